@@ -200,6 +200,27 @@ class ImplNode:
         """message ids of the own messages queued since outbound index `since`, in order"""
         return [m.p_msg.header_info_block.MessageID for m in self.outbound[since:]]
 
+    # -- application callbacks (they observe, they must not influence what is recorded or answered)
+    def set_callbacks(self, spec):
+        """spec = None (remove all) | {'hello': None | {'types': .., 'scopes': ..}, 'others': bool}"""
+        self.calls = getattr(self, 'calls', [])
+        if spec is None:
+            self.wsd.set_remote_service_hello_callback(None)
+            self.wsd.set_remote_service_bye_callback(None)
+            self.wsd.set_remote_service_resolve_match_callback(None)
+            self.wsd.set_on_probe_callback(None)
+            self.wsd.set_on_probe_matches_callback(None)
+            return
+        flt = spec['hello'] or {'types': None, 'scopes': None}
+        self.wsd.set_remote_service_hello_callback(lambda addr, svc: self.calls.append(('hello', svc.epr)),
+                                                   None if flt['types'] is None else [qn(t) for t in flt['types']],
+                                                   mk_scopes_obj(flt['scopes']))
+        if spec.get('others'):
+            self.wsd.set_remote_service_bye_callback(lambda addr, epr: self.calls.append(('bye', epr)))
+            self.wsd.set_remote_service_resolve_match_callback(lambda svc: self.calls.append(('resolve-match', svc.epr)))
+            self.wsd.set_on_probe_callback(lambda addr, probe: self.calls.append(('probe', None)))
+            self.wsd.set_on_probe_matches_callback(lambda svcs: self.calls.append(('probe-matches', len(svcs))))
+
     # -- local services
     def publish(self, epr, types, scopes, xaddrs, inst) -> str:
         with mock.patch.object(wsdimpl.random, 'randint', lambda a, b: inst):
@@ -547,11 +568,18 @@ def run_session(ctx, rng, idx, lines, expect, cases):
     mids = []
     dup = DupBook(node.th._known_message_ids.maxlen)
     answered = merged_or_ignored = False
+    hello_filter = 'off'
+    if rng.random() < 0.5:   # half of the sessions start with callbacks registered
+        spec = rand_callbacks(rng, uris)
+        node.set_callbacks(spec)
+        hello_filter = spec['hello'] if spec else 'off'
+        ops.append({'op': 'callbacks', 'spec': spec})
     n_ops = rng.randint(5, 40)
     for step in range(n_ops):
         k = rng.random()
         via_dg = rng.random() < 0.6
         n_out = len(node.outbound)
+        n_calls_before = len(getattr(node, 'calls', []))
         if k < 0.14:
             epr = rng.choice(EPRS[:4])
             types = rng.sample(TYPE_POOL, rng.randrange(0, 4))
@@ -570,6 +598,16 @@ def run_session(ctx, rng, idx, lines, expect, cases):
             impl = node.clear(epr)
             book.published.pop(epr, None)
             op = {'op': 'clear', 'epr': epr}
+        elif k < 0.24:
+            # the application (de)registers its callbacks; the Hello callback comes with a types / scopes filter that
+            # restricts the notifications - not what is recorded
+            spec = rand_callbacks(rng, uris)
+            node.set_callbacks(spec)
+            hello_filter = spec['hello'] if spec else 'off'
+            ops.append({'op': 'callbacks', 'spec': spec})
+            ctx.count('op:callbacks:' + ('off' if spec is None else 'hello-filter-' + ('none' if spec['hello'] is None else
+                      '+'.join(x for x in ('types', 'scopes') if spec['hello'][x] is not None) or 'empty')))
+            continue
         else:
             msg = rand_message(rng, uris, book)
             own = node.own_ids(0)
@@ -612,7 +650,14 @@ def run_session(ctx, rng, idx, lines, expect, cases):
         emit_own(node, n_out, dup, lines, expect, cases)
         ctx.count('op:' + line.split(' ')[0] + ('+' + line.split(' ')[2] if line.startswith('dg ') else ''))
         ctx.count('impl:' + ' '.join(impl.split(' ')[:2] if impl.startswith('err') else impl.split(' ')[:1]))
-        if rng.random() < 0.3 or step == n_ops - 1:
+        announcement = op['op'] in ('datagram', 'message') and op['msg']['kind'] in ('hello', 'pm', 'rm', 'bye')
+        if announcement and op['msg']['kind'] == 'hello' and hello_filter is None and impl.startswith('ok'):
+            # no filter: every processed Hello is notified exactly once
+            n_calls = sum(1 for c in node.calls[n_calls_before:] if c[0] == 'hello')
+            processed = bool(op['msg'].get('app') or wsdimpl.allow_missing_app_sequence)
+            if n_calls != int(processed):
+                ctx.fail('hello-callback-without-filter', f'{n_calls} notifications for one {"processed" if processed else "ignored"} Hello', {'ops': ops})
+        if announcement or rng.random() < 0.3 or step == n_ops - 1:
             lines.append('dump')
             expect.append(node.dump(node.wsd._remote_services))
             cases.append({'session': idx, 'step': step, 'op': 'dump'})
@@ -622,6 +667,21 @@ def run_session(ctx, rng, idx, lines, expect, cases):
     cases.append({'session': idx, 'op': 'dumplocal'})
     ctx.case({'session': [c for c in ops]}, nontrivial=answered and merged_or_ignored,
              sample={'session': ops[:6]} if idx == 0 else None)
+
+
+def rand_callbacks(rng, uris):
+    if rng.random() < 0.15:
+        return None
+    k = rng.random()
+    flt = None
+    if k > 0.25:
+        types = rng.sample(TYPE_POOL, rng.randrange(0, 3)) if rng.random() < 0.7 else None
+        scopes = None
+        if rng.random() < 0.6:
+            scopes = {'match_by': rng.choice([None, None, RULES['uri'], RULES['strcmp']]),
+                      'text': [rng.choice(uris).render(rng) for _ in range(rng.randrange(0, 3))]}
+        flt = {'types': types, 'scopes': scopes}
+    return {'hello': flt, 'others': rng.random() < 0.6}
 
 
 def rand_svc(rng, uris, epr=None):
@@ -933,6 +993,11 @@ def replay_ops(ctx, ops) -> bool:
         elif op['op'] == 'clear':
             node.clear(op['epr'])
             book.published.pop(op['epr'], None)
+        elif op['op'] == 'callbacks':
+            spec = op['spec']
+            if spec and spec['hello'] and spec['hello']['types'] is not None:
+                spec['hello']['types'] = [tuple(t) for t in spec['hello']['types']]
+            node.set_callbacks(spec)
         else:
             msg = op['msg']
             for s in ([msg.get('svc')] if msg.get('svc') else []) + list(msg.get('svcs') or []):
